@@ -316,7 +316,7 @@ def change_to_path_dir(path: Optional["Path"]) -> Iterator[Optional[str]]:
     token = current_path_dir.set(path_dir)
     if chdir and path_dir:
         chdir = os.getcwd()
-        path_dir = os.path.abspath(path_dir)
+        path_dir = os.path.realpath(path_dir)
         os.chdir(path_dir)
 
     try:
